@@ -133,7 +133,9 @@ class Check:
         module = idx.get("module")
         theorems = idx.get("theorems", [])
         self.pending = idx.get("pending", [])
-        self.obligations = len(theorems) + len(self.pending)
+        # obligations = the theorems this run re-checks; clauses without a theorem are listed separately as
+        # `pending_obligations` in the evidence (they are decided per run by the oracle, not proved)
+        self.obligations = len(theorems)
         t = time.time()
         targets = ["ForsysModel.Model", "ForsysModel.Driver"] + _driver_imports() + ([module] if module else [])
         rc, out = lake(["build"] + targets)
